@@ -136,7 +136,44 @@ def install_probe(C, events):
     D.__init__, D.decompress, D._decompress, D._read_data = __init__, decompress, _decompress, _read_data
 
 
+def inflate64_alone(n_mib):
+    """the delegated Deflate64 library on its own: deflate, then inflate, n MiB of incompressible data in 1 MiB pieces,
+    dropping every result at once.  Reports what stays resident after the objects are gone."""
+    import gc
+    import inflate64
+
+    def cur_kb():
+        return int(open("/proc/self/statm").read().split()[1]) * (os.sysconf("SC_PAGE_SIZE") // 1024)
+
+    rnd = random.Random(7)
+    packed = os.path.join("/dev/shm" if os.path.isdir("/dev/shm") else "/tmp", f"i64-{os.getpid()}.raw")
+    b0 = cur_kb()
+    d = inflate64.Deflater()
+    with open(packed, "wb") as f:
+        for _ in range(n_mib):
+            f.write(d.deflate(rnd.randbytes(1 << 20)))
+        f.write(d.flush())
+    del d
+    gc.collect()
+    b1 = cur_kb()
+    i = inflate64.Inflater()
+    n = 0
+    with open(packed, "rb") as f:
+        while True:
+            b = f.read(1 << 20)
+            if not b:
+                break
+            n += len(i.inflate(b))
+    del i
+    gc.collect()
+    b2 = cur_kb()
+    os.unlink(packed)
+    print(json.dumps({"n_mib": n_mib, "inflated_mib": n >> 20, "deflater_left_mib": (b1 - b0) // 1024, "inflater_left_mib": (b2 - b1) // 1024}))
+
+
 def main():
+    if sys.argv[1] == "--inflate64-alone":
+        return inflate64_alone(int(sys.argv[2]))
     case = json.loads(sys.argv[1])
     sys.path.insert(0, os.environ.get("VERIF_REPO", "/repo"))
     import py7zr
